@@ -1,6 +1,7 @@
 import BqVerif.Proofs.CircHistory
 import BqVerif.Proofs.CircInvB
 import BqVerif.Proofs.CircIter
+import BqVerif.Proofs.CircQudit
 /-! # C05 — all views of a Circuit stay mutually consistent after every edit
 
 The views (`next/prev/front/rear/first_on/last_on`, counters, iteration) are *functions of the
@@ -29,6 +30,18 @@ theorem C05_inv_history (radixes : List Nat) (h : List Call)
 theorem C05_inv_history_from (c : Circ) (h : List Call) (hinv : c.Inv)
     (hok : ∀ call ∈ h, call.Ok c.radixes) : (c.run h).Inv :=
   (run_inv c h hinv hok).1
+
+/-- The qudit-level calls keep the invariant as well (they change the width, so they are stated
+as one-step theorems rather than inside the fixed-width call language): `append_qudit`,
+`insert_qudit` (any index, incl. negative / past the end), `renumber_qudits` (any duplicate-free
+permutation of the right length with entries in range). -/
+theorem C05_inv_append_qudit (c : Circ) (r : Int) (hinv : c.Inv) : (c.appendQudit r).1.Inv :=
+  appendQudit_inv c r hinv
+theorem C05_inv_insert_qudit (c : Circ) (qi r : Int) (hinv : c.Inv) : (c.insertQudit qi r).1.Inv :=
+  insertQudit_inv c qi r hinv
+theorem C05_inv_renumber (c : Circ) (perm : List Nat) (hinv : c.Inv)
+    (hrange : ∀ x ∈ perm, x < c.numQudits) : (c.renumber perm).1.Inv :=
+  renumber_inv c perm hinv hrange
 
 /-- The executable check `invB` — printed by the driver after every call and compared with the
 implementation's grid, and used inside the relational validators of fold/straighten — decides
